@@ -582,6 +582,21 @@ def evaluate(d):
                 orc = "offspring %d has an invalid fitness that is not empty: values=%r wvalues=%r" % (
                     k, o.fitness.values, o.fitness.wvalues)
                 break
+    # (4c) … "invalid (EMPTY)": after a crossover / mutation nothing of the parent's fitness state is left — the fitness
+    # is indistinguishable from a freshly created one of its class (e.g. no constraint_violation record of a
+    # ConstrainedFitness inherited from the parent)
+    if orc is None:
+        for k, o in enumerate(out):
+            if id(o) in rec.touched and not o.fitness.valid:
+                fresh = type(o.fitness)()
+                # public state only (values, and every public attribute such as constraint_violation) — not how the
+                # class stores it internally
+                names = sorted(a for a in set(vars(o.fitness)) | set(vars(fresh)) if not a.startswith("_") and a != "wvalues")
+                left = {a: getattr(o.fitness, a, None) for a in names
+                        if _plain(getattr(o.fitness, a, None)) != _plain(getattr(fresh, a, None))}
+                if left:
+                    orc = "offspring %d went through mate/mutate and its invalid fitness is not empty: it still carries %r" % (k, left)
+                    break
     # (5) valid fitness  =>  exactly the genotype and the fitness of an input individual
     if orc is None:
         par = set((s[1], _plain(x.fitness)) for s, x in zip(before_pop, pop))
